@@ -21,9 +21,10 @@ def main():
     try:
         import translate
         translate.regenerate_all()
+        translate.regenerate_effects()
     except ImportError:
         pass
-    ok, out, s = core.lake_build(["KoalaVerif", "koala_driver"], timeout=3400)
+    ok, out, s = core.lake_build(["KoalaVerif", "KoalaVerif.Generated.Effects", "koala_driver"], timeout=3400)
     print(out[-3000:])
     print(f"setup: lake build {'ok' if ok else 'FAILED'} in {s:.0f}s (total {time.time()-t0:.0f}s)")
     sys.exit(0 if ok else 1)
